@@ -39,6 +39,16 @@ pub struct FnDesc { pub name: String, pub kind: char, pub req: usize, pub opt: u
 pub struct EnvDesc { pub vars: Vec<(String, V)>, pub fns: Vec<FnDesc> }
 
 impl EnvDesc {
+    /// "registered pure and callable with k arguments", decided from the REGISTRATION (the harness's own arity arithmetic:
+    /// exactly k; k plus up to m optional; at least one; none) — independent of `function_exists` under test.
+    /// The most recent registration of a (lower-cased) name wins.
+    pub fn pure_within_arity(&self, name: &str, k: usize) -> bool {
+        let key = name.to_lowercase();
+        match self.fns.iter().rev().find(|f| f.name.to_lowercase() == key) {
+            None => false,
+            Some(f) => f.pure && match f.kind { 'P' => f.req <= k && k <= f.req + f.opt, 'V' => k >= 1, _ => k == 0 },
+        }
+    }
     pub fn show(&self) -> String {
         let mut p = vec![format!("E {}", self.vars.len())];
         for (n, v) in &self.vars { p.push(hex(n)); p.push(show_in(v)); }
@@ -74,11 +84,11 @@ impl RecEnv {
     pub fn new(inner: StaticEnvironment) -> Self { RecEnv { inner, log: RefCell::new(vec![]) } }
     pub fn trace(&self) -> String { let l = self.log.borrow(); if l.is_empty() { "-".into() } else { l.join(" , ") } }
     /// C06's observable: every event is a call of a function registered pure for that argument count
-    pub fn all_pure_calls(&self) -> bool {
+    pub fn all_pure_calls(&self, d: &EnvDesc) -> bool {
         self.log.borrow().iter().all(|ev| {
             let mut t = ev.split(' ');
             match (t.next(), t.next().and_then(unhex), t.next().and_then(|k| k.parse::<usize>().ok())) {
-                (Some("cl"), Some(name), Some(k)) => matches!(self.inner.function_exists(&name, k), FunctionResult::Exists { pure: true }),
+                (Some("cl"), Some(name), Some(k)) => d.pure_within_arity(&name, k),
                 _ => false,
             }
         })
